@@ -625,12 +625,24 @@ impl Mon {
                         .find(|(cid, _)| cid.get_inner().as_ref() == &c[1..])
                         .and_then(|(_, agg)| din.cid_info.tetraplet_store.get(&agg.tetraplet_cid))
                         .map(|t| t.function_name.clone())
+                        // a result nobody binds (`unused`) is recorded by its value's content id only and the value is
+                        // not stored: look the content id up among the results the service stubs handed out
+                        .or_else(|| {
+                            w.peers.iter().flat_map(|p| p.consumed.values()).find_map(|(rq, res, _)| {
+                                let cid = air_interpreter_cid::raw_value_to_json_cid::<air_interpreter_data::RawValue>(res.1.as_bytes());
+                                if cid.get_inner().as_ref() == &c[1..] {
+                                    Some(rq.function.clone())
+                                } else {
+                                    None
+                                }
+                            })
+                        })
                         .unwrap_or_default();
                     if !self.analysis.calls.get(&f).map(|ci| ci.multi).unwrap_or(false) {
                         all_last_instr = false;
                     }
                     fail = Some(format!(
-                        "peer {} eid {}: lost {c} x{n} from {nm}\nprev: {}\ncur: {}\nout: {}",
+                        "peer {} eid {}: lost {c} x{n} from {nm} (result of `{f}`)\nprev: {}\ncur: {}\nout: {}",
                         r.peer,
                         r.eid,
                         interp::show_trace(&interp::dec(&r.prev)),
